@@ -44,6 +44,10 @@ enum Fault {
     NegativeStreamBenign,
     /// kill while the requests are still being written
     RstDuringWrites,
+    /// every request has been answered; the node then closes the IDLE connection (FIN)
+    IdleFin,
+    /// as IdleFin, but a few bytes of a frame header are written before the FIN
+    IdlePartialHeaderFin,
 }
 
 #[derive(Clone, Debug)]
@@ -66,6 +70,8 @@ struct CaseOut {
     log: Arc<crate::mock::log::EventLog>,
     build_error: Option<String>,
     quiet_hang: bool,
+    /// a request issued AFTER the fault that never completed
+    probe_hung: Option<u64>,
 }
 
 fn echo_frame_len() -> usize {
@@ -105,7 +111,7 @@ async fn run_case(c: &Case) -> CaseOut {
         Ok(s) => Arc::new(s),
         Err(e) => {
             cluster.shutdown();
-            return CaseOut { ops: vec![], recovered: None, log, build_error: Some(e), quiet_hang: false };
+            return CaseOut { ops: vec![], recovered: None, log, build_error: Some(e), quiet_hang: false, probe_hung: None };
         }
     };
     let prepared = if c.prepared {
@@ -116,7 +122,7 @@ async fn run_case(c: &Case) -> CaseOut {
             }
             Err(e) => {
                 cluster.shutdown();
-                return CaseOut { ops: vec![], recovered: None, log, build_error: Some(format!("prepare: {e}")), quiet_hang: false };
+                return CaseOut { ops: vec![], recovered: None, log, build_error: Some(format!("prepare: {e}")), quiet_hang: false, probe_hung: None };
             }
         }
     } else {
@@ -218,6 +224,24 @@ async fn run_case(c: &Case) -> CaseOut {
                 answer(held.len());
             }
             Fault::RstDuringWrites => {}
+            Fault::IdleFin | Fault::IdlePartialHeaderFin => {
+                // answer everything, let the callers return, then close the now idle connection
+                answer(held.len());
+                let l2 = log.clone();
+                let n = c.k as u64;
+                let base = l2.snapshot().iter().filter(|l| matches!(l.ev, Ev::ClientReturn { .. })).count() as u64;
+                let _ = base;
+                settle(&log, Duration::from_millis(60), Duration::from_secs(5), move || {
+                    l2.snapshot().iter().filter(|l| matches!(&l.ev, Ev::ClientReturn { ok: true, .. })).count() as u64 >= n
+                })
+                .await;
+                if fault == Fault::IdlePartialHeaderFin {
+                    conn.send_raw(vec![0x84, 0x00, 0x00, 0x05]);
+                }
+                conn.close(CloseHow::Fin);
+                // the close must have reached the client before the next request is issued
+                tokio::time::sleep(Duration::from_millis(30)).await;
+            }
         }
     }
     log.push(Ev::Note("fault-injected".into()));
@@ -273,13 +297,14 @@ async fn run_case(c: &Case) -> CaseOut {
     }
     // afterwards the session serves new requests (re-established connection)
     let mut recovered = None;
+    let mut probe_hung: Option<u64> = None;
     if !quiet_hang {
         let t0 = std::time::Instant::now();
         let mut ok = false;
         while t0.elapsed() < Duration::from_secs(15) {
             let id = next_op();
             call(&log, id, "echo-after", "");
-            let out = tokio::time::timeout(Duration::from_secs(5), echo_op(session.clone(), None, id, false)).await;
+            let out = tokio::time::timeout(Duration::from_secs(8), echo_op(session.clone(), None, id, false)).await;
             match out {
                 Ok(EchoOutcome::Ok(x)) if x == id => {
                     ret(&log, id, true, "ok");
@@ -292,7 +317,22 @@ async fn run_case(c: &Case) -> CaseOut {
                         ops.push((id, Some(o)));
                     }
                 }
-                Err(_) => ret(&log, id, false, "timeout"),
+                Err(_) => {
+                    // a request issued after the fault neither succeeded nor failed for 8 s (no request
+                    // timeout is configured): a hang if nothing about it moves for 3 more seconds
+                    let c0 = log.counter();
+                    tokio::time::sleep(Duration::from_secs(3)).await;
+                    let touched = log.snapshot().iter().filter(|l| l.seq >= c0).any(|l| match &l.ev {
+                        Ev::Send { tag, .. } => *tag == Some(id),
+                        Ev::Recv { request, .. } => matches!(&**request, crate::wire::request::Request::Query { query, .. } if query.strip_prefix(ECHO_QUERY_PREFIX).and_then(|s| s.trim().parse::<u64>().ok()) == Some(id)),
+                        _ => false,
+                    });
+                    ret(&log, id, false, "never completed");
+                    if !touched {
+                        probe_hung = Some(id);
+                    }
+                    break;
+                }
             }
             tokio::time::sleep(Duration::from_millis(20)).await;
         }
@@ -300,7 +340,7 @@ async fn run_case(c: &Case) -> CaseOut {
     }
     drop(session);
     cluster.shutdown();
-    CaseOut { ops, recovered, log, build_error: None, quiet_hang }
+    CaseOut { ops, recovered, log, build_error: None, quiet_hang, probe_hung }
 }
 
 fn judge(o: &mut Outcome, c: &Case, out: &CaseOut) {
@@ -378,10 +418,21 @@ fn judge(o: &mut Outcome, c: &Case, out: &CaseOut) {
             Some(EchoOutcome::Err(_)) => err += 1,
         }
     }
+    if matches!(c.fault, Fault::IdleFin | Fault::IdlePartialHeaderFin) && out.ops.iter().take(c.k).any(|(_, o)| !matches!(o, Some(EchoOutcome::Ok(_)))) {
+        o.inconclusive("an idle-close case whose requests had not all succeeded before the close");
+    }
     if c.fault == Fault::NegativeStreamBenign && err > 0 {
         o.violation("c10:negative-stream-frame-not-ignored", format!("{err} of {} requests failed after the node sent frames on negative stream ids (which must be ignored)", c.k), replay.clone());
     }
+    if let Some(id) = out.probe_hung {
+        o.violation(
+            format!("c10:request-after-fault-hangs:{:?}", c.fault),
+            format!("request {id}, issued after the connection suffered {:?}, neither succeeded nor failed (no request timeout is configured) and nothing about it moved any more", c.fault),
+            replay.clone(),
+        );
+    }
     match out.recovered {
+        Some(false) if out.probe_hung.is_some() => {}
         Some(false) => o.violation(
             format!("c10:session-did-not-recover:{:?}", c.fault),
             "no new request succeeded within 15 s after the fault although the node accepts connections".to_string(),
@@ -433,6 +484,8 @@ fn cases(ctx: &Ctx, rng: &mut Rng) -> Vec<Case> {
             Fault::UnsolicitedStream,
             Fault::NegativeStreamBenign,
             Fault::RstDuringWrites,
+            Fault::IdleFin,
+            Fault::IdlePartialHeaderFin,
         ] {
             let k = *rng.pick(&[1usize, 7, 7, 40, 300]);
             let m = rng.usize(0, k.min(5));
@@ -466,6 +519,8 @@ pub fn run(ctx: &Ctx) -> Outcome {
             "HugeLengthThenStall" => Fault::HugeLengthThenStall,
             "SilentStall" => Fault::SilentStall,
             "NegativeStreamBenign" => Fault::NegativeStreamBenign,
+            "IdleFin" => Fault::IdleFin,
+            "IdlePartialHeaderFin" => Fault::IdlePartialHeaderFin,
             _ => Fault::RstDuringWrites,
         };
         let c = Case {
@@ -530,6 +585,8 @@ pub fn run(ctx: &Ctx) -> Outcome {
         "fault:SilentStall",
         "fault:NegativeStreamBenign",
         "fault:RstDuringWrites",
+        "fault:IdleFin",
+        "fault:IdlePartialHeaderFin",
         "recovered",
     ] {
         out.require_class(c);
